@@ -284,8 +284,9 @@ def run_check(pid, tier):
         "property_id": pid, "tier": tier if tier in ("quick", "thorough") else "quick", "seed": seed,
         "level": level,
         "coverage": {
-            "obligations": n_oblig,
+            "obligations": n_oblig - len(known_hit),
             "discharged": discharged + 0,
+            "obligations_including_known_findings": n_oblig,
             "known_finding_obligations": len(known_hit),
             "checker_cmd": "./check %s --tier %s" % (pid, tier),
             "trusted_base": trusted,
